@@ -237,14 +237,16 @@ asn_parse(uint8_t *buf, size_t buf_size, size_t *offset, size_t *hdr_size,
 				dt_size <<= 8;
 				dt_size |= (*cur_pos ++);
 			}
-			if (max_pos == cur_pos ||
-			    (buf_size - (off + h_size)) < dt_size)
+			if (max_pos == cur_pos)
 				return (EBADMSG);
 		}
 	}
+	if ((buf_size - (off + h_size)) < dt_size) /* Short and long form: data must be inside buf. */
+		return (EBADMSG);
 	dt = cur_pos;
 	/* Flags check. */
 	if (ASN_ID_CLASS_UNIVERSAL == cls &&
+	    (sizeof(asn_class_uni_ps) / sizeof(asn_class_uni_ps[0])) > tag &&
 	    (ASN_ID_F_PC != asn_class_uni_ps[tag] && f_ps != asn_class_uni_ps[tag]))
 		return (EBADMSG);
 	/* Ok, return. */
